@@ -934,7 +934,10 @@ def gen_full_custom_adj(out):
                 "adj = np.ones((self.nsites, self.nsites), dtype=int)\nfor n in range(self.nsites):\n    adj[n, n] = 0\nreturn adj"):
         raise Unsupported("FullyConnectedLattice.adjacency_matrix changed")
     c = find_class(parse("customized_lattice.py"), "CustomizedLattice")
-    if not same(nodoc(find_func(c, "adjacency_matrix")), "return self.adj"):
+    # the stored matrix itself or a copy of it: the same matrix value (whether the caller can reach the stored
+    # array through the result is an aliasing question, decided by the history oracle of checks/C14.py)
+    if not any(same(nodoc(find_func(c, "adjacency_matrix")), t) for t in
+               ("return self.adj", "return self.adj.copy()", "return np.copy(self.adj)", "return np.array(self.adj)")):
         raise Unsupported("CustomizedLattice.adjacency_matrix changed")
     init = [ast.unparse(s) for s in nodoc(find_func(c, "__init__"))]
     need = ["self.shape = tuple(shape)", "self.adj = np.array(adj, dtype='bool')", "nsites = math.prod(self.shape)",
